@@ -58,7 +58,7 @@ def make_effects(repo: Repo) -> tuple[Effects, dict[str, bool], dict[bytes, Func
 def check(ctx: Ctx) -> None:
     repo = ctx.repo
     ctx.decides = ("C13.a only DataFormatError-family/EOFError escape loads()/load() (every partial primitive in the "
-                   "loaders guarded or converted); C13.b success only through STOP with a one-element stack; C13.c the "
+                   "loaders guarded or converted, including %-formatting of a loaded object in an error message); C13.b success only through STOP with a one-element stack; C13.c the "
                    "dispatch loop consumes input each round, loaders have no unbounded loops; C13.d no effectful call "
                    "reachable, channel construction behind a real None test; C13.e allocation sized by input is bounded.")
     ctx.not_decided = "nothing about concrete inputs is executed; memory/recursion limits (A6)."
